@@ -1,2 +1,30 @@
-"""Replay templates (registered on import)."""
-from .registry import replayer, run_native  # noqa: F401
+"""Replay templates: scenario programs over the public API of the REAL package, per property (mechanism 2/3 of DESIGN.md section 7).
+
+When an obligation fails, every scenario registered for the property is run against the tree under verification; a scenario
+exits 1 iff it observes the property's violation. The first one that does is the failing input (its transcript goes into
+the replay file). None => the VIOLATION line ends with no-failing-input-found."""
+from .registry import replayer, run_native
+
+SCENARIOS = {
+    'C09': ['rp_dispatch_own_parent.py', 'rp_dispatch_child_twice.py', 'rp_lock_inherited.py'],
+    'C14': ['rp_dispatch_reject_children.py'],
+    'C06': ['rp_lock_inherited.py'],
+    'C16': ['rp_exit_with_running_bus.py'],
+    'C15': ['rp_idle_after_fault.py', 'rp_recursion_guard_hang.py'],
+    'C10': ['rp_idle_after_fault.py'],
+    'C03': ['rp_recursion_guard_hang.py'],
+    'C01': ['rp_recursion_guard_hang.py'],
+    'C11': ['rp_recursion_guard_hang.py'],
+}
+
+
+@replayer(r'.')
+def scenario_sweep(pid, ob, spec):
+    runs = []
+    for script in SCENARIOS.get(pid, []):
+        r = run_native(script, [])
+        runs.append(r)
+        if r.get('confirmed'):
+            return {'confirmed': True, 'mechanism': 'scenario:' + script, 'transcript': r}
+    return {'confirmed': False, 'mechanism': 'scenario sweep', 'scenarios_run': [(r['script'], r['exit']) for r in runs],
+            'note': 'no registered scenario of this property reproduces the failed obligation on this tree; the verifier model and path signature are attached'}
